@@ -1,6 +1,8 @@
 #![allow(clippy::needless_range_loop)]
+pub mod circ;
 pub mod gen;
 pub mod mon;
 pub mod poseidon_consts;
 pub mod props;
 pub mod refmodel;
+pub mod tamper;
